@@ -5,7 +5,9 @@ misses, all checks); store under /verif/seeded/<ID>-<A|B>/.  usage: ingest_agent
 import json, os, shutil, subprocess, sys
 pid = sys.argv[1]
 run_all = "--all" in sys.argv
-src = f"/tmp/mut_{pid}"
+rnd = "2" if "--round2" in sys.argv else ""
+src = f"/tmp/mut{rnd}_{pid}"
+NAMES = {"A": "C", "B": "D"} if rnd else {"A": "A", "B": "B"}
 here = os.path.dirname(os.path.abspath(__file__))
 notes = open(os.path.join(src, "NOTES.md")).read() if os.path.exists(os.path.join(src, "NOTES.md")) else ""
 for X in ("A", "B"):
@@ -26,22 +28,24 @@ for X in ("A", "B"):
         p2 = subprocess.run([os.path.join(here, "eval_mutant.py"), patch], capture_output=True, text=True, env=dict(os.environ, EVAL_OUT=out))
         if os.path.exists(out):
             allres = json.load(open(out)); os.unlink(out)
-    dst = os.path.join(here, "..", "seeded", f"{pid}-{X}")
+    Y = NAMES[X]
+    dst = os.path.join(here, "..", "seeded", f"{pid}-{Y}")
     os.makedirs(dst, exist_ok=True)
     shutil.copy(patch, os.path.join(dst, "patch.diff"))
     if os.path.exists(demo):
         shutil.copy(demo, os.path.join(dst, "demo.py"))
     meta = {
-        "id": f"{pid}-{X}", "property": pid, "origin": "independent sub-agent given only the property text and a scratch worktree",
+        "id": f"{pid}-{Y}", "property": pid, "origin": "independent sub-agent given only the property text and a scratch worktree"
+                                                   + (" (round 2: asked for boundary values, rare API paths, call orders)" if rnd else ""),
         "base_commit": subprocess.run(["git", "-C", "/repo", "rev-parse", "--short", "HEAD"], capture_output=True, text=True).stdout.strip(),
         "needs_to_manifest": "see agent_notes", "agent_notes": notes,
         "confirmed": {"pytest_with_mutation": r.get("pytest"), "unittest_test_Tdf_with_mutation": r.get("unittest_Tdf"),
                       "demo_rc_clean": r.get("demo_clean_rc"), "demo_rc_with_mutation": r.get("demo_with_mutation_rc")},
-        "ran": [f"tools/eval_mutant.py seeded/{pid}-{X}/patch.diff --props {pid} --demo seeded/{pid}-{X}/demo.py (scratch copy of /repo, quick tier)"],
+        "ran": [f"tools/eval_mutant.py seeded/{pid}-{Y}/patch.diff --props {pid} --demo seeded/{pid}-{Y}/demo.py (scratch copy of /repo, quick tier)"],
         "target_check": r["props"].get(pid), "caught_by_target_quick": caught,
         "all_checks_quick": {k: {"rc": v["rc"], "keys": v["keys"][:3]} for k, v in allres["props"].items()} if allres else None,
         "caught_by": (allres or r).get("caught_by"),
     }
     json.dump(meta, open(os.path.join(dst, "meta.json"), "w"), indent=1)
-    print(f"{pid}-{X}: tests[{r.get('pytest','')[:20]} | {r.get('unittest_Tdf','')}] demo clean/mut={r.get('demo_clean_rc')}/{r.get('demo_with_mutation_rc')} "
+    print(f"{pid}-{Y}: tests[{r.get('pytest','')[:20]} | {r.get('unittest_Tdf','')}] demo clean/mut={r.get('demo_clean_rc')}/{r.get('demo_with_mutation_rc')} "
           f"target rc={r['props'].get(pid,{}).get('rc')} keys={r['props'].get(pid,{}).get('keys',[])[:3]} caught_by={meta['caught_by']}")
